@@ -348,19 +348,25 @@ fuzz_target!(|data: &[u8]| {
     if path.len() >= 4095 {
         return;
     }
+    let ask = |path: &[u8]| -> K {
+        ctx.tx.lock().unwrap().send((op, path.to_vec())).unwrap();
+        ctx.rx.lock().unwrap().recv().unwrap()
+    };
     let mut lib = library(ctx, op, path);
-    ctx.tx.lock().unwrap().send((op, path.to_vec())).unwrap();
-    let kern = ctx.rx.lock().unwrap().recv().unwrap();
-    if ctx.kernel_backend {
-        // openat2 may fail spuriously with EAGAIN under system-wide mount/rename load
-        let mut n = 0;
-        while n < 50 && !agree(&lib, &kern) && matches!(&lib, L::Err(Some(libc::EAGAIN), _) | L::Err(None, _)) {
-            lib = library(ctx, op, path);
-            n += 1;
-        }
-        if matches!(&lib, L::Err(Some(libc::EAGAIN), _) | L::Err(None, _)) {
-            return;
-        }
+    let mut kern = ask(path);
+    // openat2 fails spuriously (EAGAIN, or ELOOP because internal restarts eat the
+    // link budget) while mounts or renames happen anywhere on the machine; the tree
+    // is never modified, so a disagreement counts only if it persists.
+    let carved = |kern: &K| *kern == K::Err(libc::ELOOP) && traversal_bound(ctx, path).map(|n| n > 40).unwrap_or(true);
+    let mut n = 0;
+    while n < 25 && !agree(&lib, &kern) && !carved(&kern) {
+        std::thread::sleep(std::time::Duration::from_millis(if n < 5 { 1 } else { 20 }));
+        lib = library(ctx, op, path);
+        kern = ask(path);
+        n += 1;
+    }
+    if ctx.kernel_backend && matches!(&lib, L::Err(Some(libc::EAGAIN), _) | L::Err(None, _)) {
+        return;
     }
     if let L::Obj { dev, ino, .. } = &lib {
         if !ctx.inside.contains(&(*dev, *ino)) {
